@@ -188,10 +188,12 @@ def vtk_grammar(repo, col):
     rule = "E-SPEC.vtk"
     fn = repo.func("mesh", "save_mesh_as_neuroglancer_vtk")
     writes = []
-    for c in sorted(calls_in(fn.node), key=lambda c: (c.lineno, c.col_offset)):
+    from .core import calls_through_helpers
+    from .dataflow import single_defs, expand
+    for c, owner_f in calls_through_helpers(fn):
         if isinstance(c.func, ast.Attribute) and c.func.attr == "write" and \
                 c.args:
-            a = c.args[0]
+            a = expand(c.args[0], single_defs(owner_f.node), depth=2)
             if isinstance(a, ast.Call) and isinstance(a.func, ast.Attribute) \
                     and a.func.attr == "format":
                 a = a.func.value
@@ -332,11 +334,33 @@ def pyramid_factor_templates(repo, col):
                     "" if ok else "downscaling factor per axis is `%s`" % t,
                     undecided=not ok and "if" not in t)
     # the downscaled old chunk is what gets copied
-    ld = repo.func("dyadic_pyramid",
-                   "compute_dyadic_downscaling.load_and_downscale_old_chunk")
-    t = ftext(ld)
-    ok = "chunk = chunk_reader.read_chunk(old_key, old_chunk_coords)" in t and \
-        "return downscaler.downscale(chunk, downscaling_factors)" in t
+    from .core import helper_closure
+    top = repo.func("dyadic_pyramid", "compute_dyadic_downscaling")
+    ld = None
+    for h in helper_closure(top, depth=3):
+        if h is not top and any(isinstance(c.func, ast.Attribute) and
+                                c.func.attr == "read_chunk"
+                                for c in calls_in(h.node)):
+            ld = h
+    if ld is None:
+        col.add(rule, top, "read old chunk, downscale by the level's factors",
+                True, "the function that reads the old chunks is not a local "
+                "helper of compute_dyadic_downscaling", undecided=True)
+        return
+    # return downscale(read_chunk(key, coords), factors)
+    from .dataflow import single_defs, expand
+    ltab = single_defs(ld.node)
+    ok = False
+    for st in stmts_of(ld.node):
+        if isinstance(st, ast.Return) and st.value is not None:
+            v = expand(st.value, ltab)
+            if isinstance(v, ast.Call) and isinstance(v.func, ast.Attribute) \
+                    and v.func.attr == "downscale" and len(v.args) == 2 and \
+                    isinstance(v.args[0], ast.Call) and \
+                    isinstance(v.args[0].func, ast.Attribute) and \
+                    v.args[0].func.attr == "read_chunk" and \
+                    "factor" in norm(v.args[1]):
+                ok = True
     col.add(rule, ld, "read old chunk, downscale by the level's factors", ok,
             "" if ok else "loader does not return downscale(read_chunk(old "
             "key, old coords), factors)", undecided=not ok)
@@ -408,52 +432,97 @@ def sharded_http_urls(repo, col):
 
 def copy_info_handling(repo, col):
     rule = "E-ORDER.convert.info"
-    fn = repo.func("scripts.convert_chunks", "convert_chunks")
-    defs = local_defs(fn.node)
-    t = ftext(fn).replace("\n", " ")
-    while "  " in t:
-        t = t.replace("  ", " ")
+    from .core import helper_closure
+    top = repo.func("scripts.convert_chunks", "convert_chunks")
     # the destination's layout (sharded or plain) is decided from its info:
     # with --copy-info the info only exists after it has been stored, so the
     # accessor that writes the chunks must be obtained after that store
-    branch = None
-    for st in stmts_of(fn.node):
-        if isinstance(st, ast.If) and norm(st.test) == "copy_info":
-            branch = st
-    if branch is None:
-        col.add(rule, fn, "--copy-info branch", True, "no `if copy_info:` "
-                "branch", undecided=True)
-        return
-    i_store = i_acc = None
-    acc_name = None
-    for i, st in enumerate(branch.body):
-        if any((call_name(c) or "").endswith("get_IO_for_new_dataset")
-               for c in calls_in(st)):
-            i_store = i
-            direct = isinstance(st, ast.Assign)
-        if isinstance(st, ast.Assign) and any(
-                (call_name(c) or "").endswith("get_accessor_for_url")
-                for c in calls_in(st)) and isinstance(st.targets[0], ast.Name):
-            i_acc = i
-            acc_name = st.targets[0].id
-    col.add(rule, fn, "--copy-info stores the source info", i_store is not None,
-            "" if i_store is not None else "--copy-info no longer writes the "
-            "source info to the destination")
-    writers = [d for d in defs.get("chunk_writer", []) if d.value is not None]
-    final = writers[-1].value if writers else None
-    uses = names_in(final) if final is not None else set()
-    ok = i_store is not None and i_acc is not None and i_acc > i_store and \
-        acc_name in uses and final is not None and \
-        "get_IO_for_existing_dataset" in norm(final)
-    col.add(rule, fn, "accessor for the chunks is obtained after the info is "
-            "stored", ok, "" if ok else
-            "with --copy-info the chunks are written through an accessor that "
-            "was created before the destination info existed: a sharded "
-            "source info is copied next to chunks written in the plain file "
-            "layout (or the reverse) and the destination cannot be read back")
-    ok = "dest_info = chunk_writer.info" in t and \
-        "convert_chunks_for_scale(chunk_reader, dest_info, chunk_writer, " \
-        "scale_index, chunk_transformer)" in t
-    col.add(rule, fn, "chunk grid taken from the destination info", ok,
+    store_fn, store_call = None, None
+    for h in helper_closure(top):
+        for c in calls_in(h.node):
+            if (call_name(c) or "").endswith("get_IO_for_new_dataset"):
+                store_fn, store_call = h, c
+    col.add(rule, top, "--copy-info stores the source info",
+            store_call is not None, "" if store_call is not None else
+            "--copy-info no longer writes the source info to the destination")
+    label = "accessor for the chunks is obtained after the info is stored"
+    if store_call is not None:
+        fn = store_fn
+        cfg = fn.cfg()
+        owner = enclosing_stmt_map(fn.node)
+        sn = cfg.node_of(owner.get(id(store_call)))
+        reach = cfg.reachable(sn) if sn is not None else set()
+        opens = []
+        for c in calls_in(fn.node):
+            if (call_name(c) or "").endswith("get_IO_for_existing_dataset") \
+                    and c.args:
+                n = cfg.node_of(owner.get(id(c)))
+                if n is not None and n.id in reach and n is not sn:
+                    opens.append((c, n))
+        # the handle returned by the store itself writes through the
+        # accessor it was given, which predates the info
+        st_stmt = owner.get(id(store_call))
+        reused = None
+        if isinstance(st_stmt, ast.Assign) and st_stmt.value is store_call \
+                and isinstance(st_stmt.targets[0], ast.Name):
+            wn = st_stmt.targets[0].id
+            for h in helper_closure(top):
+                for c in calls_in(h.node):
+                    if (call_name(c) or "") == "convert_chunks_for_scale" and \
+                            len(c.args) >= 3 and norm(c.args[2]) == wn and \
+                            h is fn:
+                        reused = c
+        if reused is not None:
+            col.add(rule, fn, label, False,
+                    "with --copy-info the chunks are written through the "
+                    "handle returned by get_IO_for_new_dataset, whose accessor "
+                    "was created before the destination info existed: a "
+                    "sharded source info is copied next to chunks written in "
+                    "the plain file layout and the destination cannot be read "
+                    "back", node=store_call)
+        elif sn is None or not opens:
+            col.add(rule, fn, label, True, "the writer is not opened in the "
+                    "function that stores the info", undecided=True)
+        for c, n in opens:
+            a0 = c.args[0]
+            fresh = []
+            if isinstance(a0, ast.Name):
+                for st in stmts_of(fn.node):
+                    if isinstance(st, ast.Assign) and \
+                            norm(st.targets[0]) == a0.id and any(
+                                (call_name(x) or "").endswith(
+                                    "get_accessor_for_url")
+                                for x in calls_in(st)):
+                        k = cfg.node_of(st)
+                        if k is not None:
+                            fresh.append(k)
+            elif isinstance(a0, ast.Call) and (call_name(a0) or "").endswith(
+                    "get_accessor_for_url"):
+                fresh = [n]
+            ok = bool(fresh) and (fresh == [n] or
+                                  cfg.every_path_passes(sn, n, fresh))
+            col.add(rule, fn, label, ok, "" if ok else
+                    "with --copy-info the chunks are written through an "
+                    "accessor that was created before the destination info "
+                    "existed: a sharded source info is copied next to chunks "
+                    "written in the plain file layout (or the reverse) and the "
+                    "destination cannot be read back", node=c)
+    # the conversion loop is driven by the destination's info
+    loop_call, loop_fn = None, None
+    for h in helper_closure(top):
+        for c in calls_in(h.node):
+            if (call_name(c) or "") == "convert_chunks_for_scale":
+                loop_call, loop_fn = c, h
+    ok, und = False, True
+    if loop_call is not None and len(loop_call.args) >= 3 and \
+            all(isinstance(a_, ast.Name) for a_ in loop_call.args[:3]):
+        ldefs = local_defs(loop_fn.node)
+        info_n, writer_n = loop_call.args[1].id, loop_call.args[2].id
+        ivals = [norm(d.value) for d in ldefs.get(info_n, [])
+                 if d.value is not None]
+        if ivals:
+            und = False
+            ok = all(v == "%s.info" % writer_n for v in ivals)
+    col.add(rule, top, "chunk grid taken from the destination info", ok or und,
             "" if ok else "conversion loop is not driven by the destination "
-            "info", undecided=not ok)
+            "info", undecided=und and not ok)
